@@ -109,7 +109,8 @@ pub fn run_case(c: &Case, out: &mut String, st: &mut Stats, snapshots: bool) -> 
     out.push_str(&format!(
         "{{\"ev\":\"reset\",\"fmt\":\"{}\",\"input\":{},\"cap\":{},\"slots\":{},\"grp\":{},\"first\":{},\"pp\":\"{}\",\"fault\":{},\"intr\":{},\"pol\":{},\"case\":{}}}\n",
         FMT,
-        jb(&c.x),
+        // a source whose very first read reports the end of the input has delivered an empty input
+        if c.chunks.first() == Some(&crate::source::EOF_NOW) { "[]".to_string() } else { jb(&c.x) },
         c.cap,
         c.slots,
         c.grp,
